@@ -98,7 +98,7 @@ func render(toks []interface{}) string {
 		t := obj(x)
 		if i > 0 {
 			if w, ok := t["w"]; ok {
-				b.WriteString(str(w))
+				b.WriteString(gapText(str(w)))
 			} else if str(t["g"]) != "T" {
 				b.WriteByte(' ')
 			}
@@ -106,6 +106,23 @@ func render(toks []interface{}) string {
 		b.WriteString(renderTok(t))
 	}
 	return b.String()
+}
+
+// gapText expands the placeholders of spec/grammar/Gen_spell.tla for long runs of blanks.
+func gapText(w string) string {
+	switch w {
+	case "{SP63}":
+		return strings.Repeat(" ", 63)
+	case "{SP64}":
+		return strings.Repeat(" ", 64)
+	case "{SP65}":
+		return strings.Repeat(" ", 65)
+	case "{SP130}":
+		return strings.Repeat(" ", 130)
+	case "{NL80}":
+		return "\n" + strings.Repeat(" ", 80)
+	}
+	return w
 }
 
 // caseText is the text of a case: rendered from its token records, or, for replayed
